@@ -172,7 +172,8 @@ def gen_memclasses():
             bad += [("spidx", "[%s+%s*%d]" % (b, sp, sc)), ("spidx", "[%s+%d*%s]" % (b, sc, sp)), ("spidx", "[%d*%s]" % (sc, sp)),
                     ("spidx", "[%s+%s*%d+0x10]" % (b, sp, sc))]
         bad += [("spidx", "[%s+%s]" % (sp, sp)), ("spidx", "[%s+%s*1]" % (sp, sp)), ("spidx", "[%s+%s+0x10]" % (sp, sp))]
-    bad += [("bracket", "[rbx"), ("bracket", "[rbx+rcx*2"), ("bracket", "[rbx+0x10")]
+    bad += [("bracket", "[rbx"), ("bracket", "[rbx+rcx*2"), ("bracket", "[rbx+0x10"), ("bracket", "[[rbx]"), ("bracket", "[rbx]]"),
+            ("bracket", "[rbx+[rcx]"), ("bracket", "[rbx+rcx*2]]"), ("bracket", "[[rbx+0x10]")]
     for cat, m in bad:
         for t in MEM_TEMPLATES:
             yield {"cat": cat, "text": t % m, "must": True, "how": "class:" + t.split()[0], "mexpr": m}
